@@ -53,6 +53,12 @@ Eigen::Array<double, N, 1> spectrum(const std::string& pat, vt::Rng& r, bool all
    if (pat == "zero2") { d(0) = 0; d(N - 1) = 0; }
    if (pat == "negpair" && allow_neg) d(1) = -d(0);                 // equal magnitude, opposite sign
    if (pat == "hier") for (int i = 0; i < N; ++i) d(i) = std::pow(10.0, -12.0 * i / (N - 1)) * r.uni(1, 9) * (allow_neg && r.coin() ? -1 : 1);
+   // an exactly degenerate pair of the largest magnitude (negative resp. positive), smaller magnitudes of either sign behind it
+   if (pat == "negdouble" || pat == "posdouble") {
+      const double a = r.logu(5, 50) * (pat == "negdouble" && allow_neg ? -1 : 1);
+      d(0) = a; d(1) = a;
+      for (int i = 2; i < N; ++i) d(i) = std::abs(a) * r.uni(0.05, 0.9) * (allow_neg && r.coin() ? -1 : 1);
+   }
    if (pat == "int") for (int i = 0; i < N; ++i) d(i) = double(r.below(5) - (allow_neg ? 2 : 0));
    return d;
 }
